@@ -185,7 +185,7 @@ class Mux:
 
 def collect_corpus() -> list[bytes]:
     out = []
-    for name in capture.SCENARIOS:
+    for name in capture.CORPUS_SCENARIOS:
         async def main(loop, name=name):
             env = await capture.run_scenario(loop, name)
             data = [fl.data for fl in env.net.log]
